@@ -76,12 +76,12 @@ func handleHSET(params internal.HandlerFuncParams) ([]byte, error) {
 		}
 	default:
 		// Handle HSET
+		count = len(entries)
 		for field, value := range hash {
 			if entries[field] == nil {
 				entries[field] = value
 			}
 		}
-		count = len(entries)
 	}
 
 	if err = params.SetValues(params.Context, map[string]interface{}{key: entries}); err != nil {
